@@ -458,8 +458,9 @@ class NeedMarker(Need):
             for enact in frame.enacts:  # avoid adding redundant marker
                 if (isinstance(enact.actor, acting.Actor) and
                         enact.actor.name == kind and
+                        isinstance(enact.parms.get('share'), storing.Share) and
                         enact.parms['share'].name == share.name and
-                        enact.parms['marker'] == marker):
+                        enact.parms.get('marker') == marker):
                     found = True
                     break
 
